@@ -35,31 +35,59 @@ TECHNIQUE = (
 
 META = {
     "explanation": (
-        "R1: the v2 entry regex (parsed with re._parser), the match function and the subject normalisation equal those of "
-        "the installed sphinx.util.inventory. R2: in the v2 loader the ':' test dominates the split of domain:objtype, the "
-        "py:module first-wins skip, the '$' expansion and the '-'/empty -> None rule (every other display name verbatim, "
-        "also one equal to another local such as the name) are present; the branch facts dominating the single entry "
-        "store are exactly Sphinx's skip conditions (match, ':', duplicate py:module; truthiness tests on regex groups that "
-        "cannot be empty are vacuous); the store runs at most once per line and has Sphinx's duplicate semantics (a later "
-        "entry overwrites: subscript assignment / update, not setdefault). R3: a small kind inference (DOMAIN / OBJTYPE / NAME / DOMAIN:OBJTYPE) checks every key "
-        "used on the MyST- and Sphinx-format dictionaries in _load_v1, _load_v2, from_sphinx and to_sphinx. R4: every "
-        "store to the reader's byte buffers is an append, a prefix drop after the prefix was consumed, or a reset after "
-        "the whole buffer was consumed; consumed bytes are discarded before the next append/use; a local line buffer is "
-        "empty or consumed when the generator ends; decode() is applied only to bytes that end at an entry or stream "
-        "boundary (prefix up to an ASCII separator, whole buffer at eof, join of all chunks) and never to a single "
-        "read/decompress chunk; eof is set only when a read returned b''; every read chunk is "
-        "appended. R5: header strings, [11:] offsets, the v1 type/location templates, the substring/equality/suffix "
-        "constants of the v2 loader, the line-boundary set and the '-' sentinel agree with Sphinx's loaders and between "
-        "from_sphinx/to_sphinx."
+        "All rules compare MyST's inventory loader with the installed sphinx.util.inventory (parsed, never imported) or check "
+        "structural necessary conditions of chunk-independence. Private helpers are followed (records built by a helper, "
+        "expression helpers inlined, store helpers with local aliases and return-guards, a per-line parse helper of the v2 loop "
+        "inlined into an analysis view of the loader), hoisted module constants are resolved. "
+        "R1: the v2 entry regex (re._parser tree, group count, flags without VERBOSE), the match function and the subject "
+        "normalisation (line.rstrip()) equal Sphinx's. "
+        "R2 (v2 loader, from_sphinx): domain:objtype is cut at the FIRST ':' (split(':', 1) / partition; rsplit/rpartition "
+        "are reported) and the cut is dominated by the ':' test (or its ValueError is caught and the entry skipped); the "
+        "py:module first-wins skip exists and skips exactly when (type is py:module and already present) - truth table over "
+        "type == 'py:module' / domain == 'py' / objtype == 'module' / tuple comparisons / membership in the table or a local "
+        "alias of it; the '$' shorthand is expanded to location[:-1] + name before the store (re.sub with the name as "
+        "replacement template and str.replace of every '$' are reported); '' and '-' become None and every other display name "
+        "is kept verbatim, decided by evaluating the predicate over abstract values ('', '-', other, equal-to-another-local); "
+        "the branch facts dominating the single entry store are exactly Sphinx's skip conditions (match, ':', duplicate "
+        "py:module; truthiness of a regex group that cannot be empty is vacuous; any other condition on a field is reported); "
+        "the store runs at most once per line and has Sphinx's duplicate semantics (overwrite: subscript assignment/update, "
+        "not setdefault). "
+        "R3: kind inference (DOMAIN / OBJTYPE / NAME / DOMAIN:OBJTYPE) over every key used on the MyST-format and "
+        "Sphinx-format dictionaries in _load_v1, _load_v2, from_sphinx, to_sphinx and the helpers that receive the table. "
+        "R4 (InventoryFileReader): every store to the read buffer / a local line buffer is an append, a prefix drop after the "
+        "prefix up to the separator was consumed, or a reset after the whole buffer was consumed (or the decompressor's "
+        "unconsumed_tail); consumed bytes are discarded before the next append/use; a local line buffer is empty or consumed "
+        "when the generator ends; decode() is applied only to bytes ending at an entry or stream boundary (prefix up to an "
+        "ASCII separator, whole buffer at eof, join of all chunks), never to a single read/decompress chunk; the eof flag is "
+        "set only when a read returned b'' (a computed flag must be an emptiness test of the read result); every chunk read is "
+        "appended or handed on whole; a loop over readline() ends on the eof flag, never on an empty line (readline returns '' "
+        "for a blank line too); decompress(data, max_length) requires unconsumed_tail to be read again. "
+        "R5: header constants and their dispatch, [11:] offsets of project name/version (through helpers), the v1 "
+        "type/location templates and duplicate semantics (symbolic evaluation of both v1 loop bodies; a first-wins guard in v1 "
+        "is reported), the substring/separator, type-equality and location-suffix constants of the v2 loader, the entry-line "
+        "boundary set (str.splitlines) for v1 and v2, and the '-' sentinel of to_sphinx / from_sphinx / Sphinx's v1 loader "
+        "(from_sphinx must map exactly '' and '-' to None: lossless round trip)."
     ),
-    "not_decided": "equality of the loaded tables for every byte stream and every chunking (needs the values); zlib behaviour; recursion depth of readline for very long header lines read in tiny chunks",
+    "not_decided": (
+        "equality of the loaded tables for every byte stream and every chunking as values (only the structural necessary "
+        "conditions above); zlib's own behaviour; recursion depth of the recursive readline for very long header lines read in "
+        "tiny chunks; the content of third-party streams; shapes outside the modelled subset answer ANALYSIS-ERROR (parse "
+        "helpers that return something other than a NamedTuple/dataclass/tuple or None, tuple-swap stores to the buffer, method "
+        "calls on the display name inside the sentinel predicate)"
+    ),
     "trusted_base": [
         "CPython ast and re._parser",
-        "sphinx/util/inventory.py as installed (oracle)",
+        "sphinx/util/inventory.py as installed (oracle; its version is recorded in the evidence notes)",
         "the documented boundary set of str.splitlines()",
         "posixpath.join(uri, x) in Sphinx corresponds to MyST's separate base_url field",
+        "the helper-inlining view preserves semantics for helpers that are pure per-line functions returning a record or None "
+        "while the caller continues on None",
     ],
-    "assumptions": ["the stream's read(n) returns b'' only at end of stream", "zlib.decompressobj().decompress() returns all available output (no max_length)"],
+    "assumptions": [
+        "the stream's read(n) returns b'' only at end of stream",
+        "zlib.decompressobj().decompress(data) without max_length processes all of data",
+        "a field comparison guarding the store can be false for some matched line (only truthiness of non-empty regex groups is recognised as vacuous)",
+    ],
 }
 
 SIB = "sphinx/util/inventory.py"
@@ -130,7 +158,34 @@ def _atoms(cfg, stmt):
     return out
 
 
+def _tuple_eq_parts(t):
+    """``(a, b) == (c, d)`` -> [a == c, b == d] (None when ``t`` is not such a comparison)."""
+    if isinstance(t, ast.Compare) and len(t.ops) == 1 and isinstance(t.ops[0], (ast.Eq, ast.NotEq)):
+        l, r = t.left, t.comparators[0]
+        if isinstance(l, (ast.Tuple, ast.List)) and isinstance(r, (ast.Tuple, ast.List)) and len(l.elts) == len(r.elts) and l.elts:
+            return [ast.copy_location(ast.Compare(left=a, ops=[ast.Eq()], comparators=[b]), t) for a, b in zip(l.elts, r.elts)]
+    return None
+
+
+def _is_table(e) -> bool:
+    """``e`` denotes (part of) the objects table: an access chain over ["objects"], or a local bound to one."""
+    if "objects" in unparse(e):
+        return True
+    if isinstance(e, ast.Name):
+        f = enclosing_function(e)
+        if f is not None:
+            defs = [d for d in f.local_nodes() if isinstance(d, ast.Assign) and any(_is_name(t_, e.id) for t_ in d.targets)]
+            return len(defs) == 1 and not isinstance(defs[0].value, ast.Name) and "objects" in unparse(defs[0].value)
+    return False
+
+
 def _atom(t, pol):
+    parts = _tuple_eq_parts(t)
+    if parts is not None:
+        eq = isinstance(t.ops[0], ast.Eq)
+        if pol == eq:  # the conjunction holds: every component comparison holds
+            return [a for p_ in parts for a in _atom(p_, True)]
+        return [("truth", t, None, pol, t)]
     if isinstance(t, ast.Compare) and len(t.ops) == 1:
         op = t.ops[0]
         l, r = t.left, t.comparators[0]
@@ -416,15 +471,233 @@ def _sphinx_loop(corpus) -> EntryLoop:
 
 
 # ---------------------------------------------------------------------------
+# analysis view: a per-line parse helper of the v2 loader is inlined into the loader's loop
+#
+# A maintainer may split the long v2 loop into "parse one line" (a pure function returning a NamedTuple /
+# tuple, or None for a line to skip) and "insert". The rules below reason about ONE loop body, so the
+# loader is analysed on a derived syntax tree in which the helper's body stands where it is called:
+# ``return None`` becomes ``continue`` (the caller continues on None), the final ``return C(a, b, ...)``
+# becomes bindings of the fields, and ``entry.field`` becomes the bound expression. Nothing is executed.
+
+import copy as _copy
+import textwrap as _textwrap
+
+
+def _fresh(fi: FunctionInfo):
+    """A parent-link-free copy of a function's syntax tree with absolute line numbers."""
+    seg = ast.get_source_segment(fi.module.src, fi.node)
+    if seg is None:
+        return None
+    tree = ast.parse(_textwrap.dedent(seg)).body[0]
+    ast.increment_lineno(tree, fi.node.lineno - 1)
+    return tree
+
+
+def _record_fields(mod, ctor: ast.expr) -> list[str] | None:
+    """Field names, in order, of a NamedTuple / dataclass defined in the module."""
+    d = dotted(ctor)
+    ci = mod.classes.get(d) if d else None
+    if ci is None:
+        return None
+    bases = [b.rsplit(".", 1)[-1] for b in ci.bases]
+    decos = [(dotted(x.func if isinstance(x, ast.Call) else x) or "").rsplit(".", 1)[-1] for x in ci.node.decorator_list]
+    if "NamedTuple" not in bases and "dataclass" not in decos:
+        return None
+    return [st.target.id for st in ci.node.body if isinstance(st, ast.AnnAssign) and isinstance(st.target, ast.Name)]
+
+
+def _inline_parse_helper(corpus: Corpus, loader: FunctionInfo):
+    """(new function tree, helper) with the per-line parse helper inlined into the loader's loop, or None."""
+    mod = loader.module
+    lt = _fresh(loader)
+    if lt is None:
+        return None
+    for loop in [n for n in ast.walk(lt) if isinstance(n, ast.For)]:
+        for i, st in enumerate(loop.body):
+            if not (isinstance(st, ast.Assign) and len(st.targets) == 1 and isinstance(st.targets[0], ast.Name) and isinstance(st.value, ast.Call) and isinstance(st.value.func, ast.Name)):
+                continue
+            helper = mod.functions.get(st.value.func.id)
+            if helper is None or helper.is_lambda or helper.fq == loader.fq or helper.cls is not None:
+                continue
+            if not any(isinstance(n, ast.Call) and isinstance(n.func, ast.Attribute) and n.func.attr == "groups" for n in helper.local_nodes()):
+                continue  # only the helper that takes the line apart
+            res = st.targets[0].id
+            call = st.value
+            # the caller must skip the line when the helper returned None
+            nxt = loop.body[i + 1] if i + 1 < len(loop.body) else None
+            ok_skip = False
+            if isinstance(nxt, ast.If) and not nxt.orelse and len(nxt.body) == 1 and isinstance(nxt.body[0], ast.Continue):
+                t = nxt.test
+                if isinstance(t, ast.UnaryOp) and isinstance(t.op, ast.Not) and _is_name(t.operand, res):
+                    ok_skip = True
+                if isinstance(t, ast.Compare) and len(t.ops) == 1 and isinstance(t.ops[0], ast.Is) and _is_name(t.left, res) and _is_none(t.comparators[0]):
+                    ok_skip = True
+            if not ok_skip:
+                continue
+            hf = _fresh(helper)
+            if hf is None or hf.args.vararg or hf.args.kwarg or hf.args.kwonlyargs:
+                continue
+            if any(isinstance(n, (ast.FunctionDef, ast.AsyncFunctionDef, ast.Lambda, ast.Yield, ast.YieldFrom, ast.Global, ast.Nonlocal, ast.ClassDef)) for b in hf.body for n in ast.walk(b)):
+                continue
+            body = [b for b in hf.body if not (isinstance(b, ast.Expr) and isinstance(b.value, ast.Constant))]
+            if not body or not isinstance(body[-1], ast.Return) or body[-1].value is None:
+                continue
+            final = body[-1]
+            rets = [n for b in body for n in ast.walk(b) if isinstance(n, ast.Return)]
+            inner_loops = [n for b in body for n in ast.walk(b) if isinstance(n, (ast.For, ast.While))]
+            if any(r is not final and not (r.value is None or _is_none(r.value)) for r in rets):
+                continue
+            if any(isinstance(n, ast.Return) for l in inner_loops for n in ast.walk(l)):
+                continue
+            # fields of the returned record
+            rv = final.value
+            if isinstance(rv, ast.Call) and not any(isinstance(a, ast.Starred) for a in rv.args):
+                fields = _record_fields(mod, rv.func)
+                if fields is None or len(rv.args) + len(rv.keywords) > len(fields):
+                    continue
+                fexpr = dict(zip(fields, rv.args))
+                for kw in rv.keywords:
+                    if kw.arg is None:
+                        fexpr = None
+                        break
+                    fexpr[kw.arg] = kw.value
+                if fexpr is None or set(fexpr) != set(fields):
+                    continue
+                positional = [fexpr[f] for f in fields]
+            elif isinstance(rv, ast.Tuple):
+                fields, fexpr, positional = [], {}, list(rv.elts)
+            else:
+                continue
+            # parameters
+            params = [a.arg for a in hf.args.posonlyargs + hf.args.args]
+            pargs = {}
+            for j, a in enumerate(call.args):
+                if isinstance(a, ast.Starred) or j >= len(params):
+                    pargs = None
+                    break
+                pargs[params[j]] = a
+            if pargs is None:
+                continue
+            for kw in call.keywords:
+                if kw.arg is None or kw.arg not in params:
+                    pargs = None
+                    break
+                pargs[kw.arg] = kw.value
+            if pargs is None or set(pargs) != set(params):
+                continue
+            # names: helper locals that collide with the caller's are renamed
+            caller_names = {n.id for n in ast.walk(lt) if isinstance(n, ast.Name)} | {a.arg for a in lt.args.args}
+            helper_locals = set(params) | {n.id for b in body for n in ast.walk(b) if isinstance(n, ast.Name) and isinstance(n.ctx, ast.Store)}
+            ren = {}
+            for nm in helper_locals:
+                if nm in caller_names and not (nm in pargs and _is_name(pargs[nm], nm)):
+                    ren[nm] = f"{nm}_{helper.name.strip('_')}"
+            for b in body:
+                for n in ast.walk(b):
+                    if isinstance(n, ast.Name) and n.id in ren:
+                        n.id = ren[n.id]
+            new_body: list = []
+            for p_ in params:
+                tgt = ren.get(p_, p_)
+                if not _is_name(pargs[p_], tgt):
+                    a_ = ast.Assign(targets=[ast.Name(id=tgt, ctx=ast.Store())], value=pargs[p_], lineno=st.lineno)
+                    new_body.append(a_)
+            # uses of the result in the rest of the loop body
+            rest = loop.body[i + 2 :]
+            uses_ok = True
+            outside = [n for n in ast.walk(lt) if isinstance(n, ast.Name) and n.id == res and not any(n is x for r_ in rest for x in ast.walk(r_)) and n is not st.targets[0] and not any(n is x for x in ast.walk(nxt))]
+            if outside:
+                continue
+            binds: list = []
+            fvar: dict = {}
+            for f_, e_ in zip(fields, positional):
+                if isinstance(e_, ast.Name):
+                    fvar[f_] = e_.id
+                else:
+                    v_ = f"{res}_{f_}"
+                    fvar[f_] = v_
+                    binds.append(ast.Assign(targets=[ast.Name(id=v_, ctx=ast.Store())], value=e_, lineno=final.lineno))
+
+            class Rw(ast.NodeTransformer):
+                def visit_Attribute(self, n):
+                    if _is_name(n.value, res) and isinstance(n.ctx, ast.Load) and n.attr in fvar:
+                        return ast.copy_location(ast.Name(id=fvar[n.attr], ctx=ast.Load()), n)
+                    return self.generic_visit(n)
+
+                def visit_Assign(self, n):
+                    if _is_name(n.value, res) and isinstance(n.targets[0], (ast.Tuple, ast.List)) and len(n.targets[0].elts) == len(positional):
+                        n.value = ast.copy_location(ast.Tuple(elts=[_copy.deepcopy(e) for e in positional], ctx=ast.Load()), n.value)
+                        return n
+                    return self.generic_visit(n)
+
+            rest = [Rw().visit(r_) for r_ in rest]
+            if any(isinstance(n, ast.Name) and n.id == res for r_ in rest for n in ast.walk(r_)):
+                continue  # the record escapes as a whole: not understood
+
+            class Ret(ast.NodeTransformer):
+                def visit_Return(self, n):
+                    return ast.copy_location(ast.Continue(), n)
+
+            inl = [Ret().visit(b) for b in body[:-1]]
+            loop.body = loop.body[:i] + new_body + inl + binds + rest
+            ast.fix_missing_locations(lt)
+            return lt, helper
+    return None
+
+
+def _view(corpus: Corpus) -> Corpus:
+    """The corpus the rules analyse: ``corpus`` itself, or an overlay in which the v2 loader's per-line parse
+    helper is inlined (appended as a later definition of the loader, line numbers mapped back)."""
+    if getattr(corpus, "_c18_is_view", False):
+        return corpus
+
+    def build():
+        try:
+            A = Anchors(corpus)
+            try:
+                EntryLoop(A.v2, corpus)
+                return corpus  # understood as it is
+            except Unsupported:
+                pass
+            r = _inline_parse_helper(corpus, A.v2)
+            if r is None:
+                return corpus
+            tree, helper = r
+            mod = A.inv
+            text = ast.unparse(tree)
+            new_src = mod.src.rstrip("\n") + "\n\n\n" + text + "\n"
+            ov = Corpus.load(corpus.root, overlay={mod.rel: new_src}, base=corpus)
+            nf = ov.mod("inventory").functions.get(A.v2.qualname)
+            if nf is None:
+                return corpus
+            a, b = list(ast.walk(nf.node)), list(ast.walk(tree))
+            if [type(x) for x in a] == [type(x) for x in b]:
+                for x, y in zip(a, b):
+                    for attr in ("lineno", "end_lineno"):
+                        if hasattr(y, attr) and hasattr(x, attr):
+                            setattr(x, attr, getattr(y, attr))
+            ov._c18_is_view = True
+            ov._c18_view_note = f"{A.v2.fq} analysed with its per-line helper {helper.qualname} inlined into the loop"
+            return ov
+        except (AnchorMissing, Unsupported, SyntaxError):
+            return corpus
+
+    return corpus.cache("c18-view", build)
+
+
+# ---------------------------------------------------------------------------
 # R1
 
 
 @rule("C18.R1")
 def r1_regex_equals_sphinx(corpus: Corpus, rep: Report, tier: str):
+    corpus = _view(corpus)
     rep.rule("C18.R1", "v2 entry regex tree, flags, match function and subject normalisation equal Sphinx's")
     A = _anchors(corpus)
     rep.saw_sibling(SIB)
     rep.note(f"oracle: sphinx {A.sphinx_version} ({SIB})")
+    if getattr(corpus, "_c18_view_note", None):
+        rep.note(corpus._c18_view_note)
     m, s = _myst_loop(corpus), _sphinx_loop(corpus)
     rep.saw_function(m.fi.fq)
     site = m.fi.module.site(m.call)
@@ -610,6 +883,10 @@ def _text_outcomes(fi: FunctionInfo, value: ast.expr, store: ast.stmt, scope: se
         return out
     if isinstance(value, ast.Name):
         var = value.id
+        sdefs = [st for st in scope if isinstance(st, ast.Assign) and st is not unpack and len(st.targets) == 1 and _is_name(st.targets[0], var)]
+        alld = [st for st in scope if st is not unpack and isinstance(st, (ast.Assign, ast.AugAssign, ast.AnnAssign)) and any(_is_name(n, var) and isinstance(n.ctx, ast.Store) for t_ in (st.targets if isinstance(st, ast.Assign) else [st.target]) for n in ast.walk(t_))]
+        if len(sdefs) == 1 and len(alld) == 1 and not _mentions(sdefs[0].value, {var}) and cfg.dominates(sdefs[0], store):
+            return _text_outcomes(fi, sdefs[0].value, store, scope, unpack, samples, corpus)  # entry_text = <expr over text>
         tests = []
         for st in scope:
             if st is unpack or not isinstance(st, (ast.Assign, ast.AugAssign, ast.AnnAssign)):
@@ -771,6 +1048,9 @@ def _dup_truth(t, tv: dict, D: bool, O: bool, P: bool) -> bool:
     if isinstance(t, ast.BoolOp):
         vals = [_dup_truth(v, tv, D, O, P) for v in t.values]
         return all(vals) if isinstance(t.op, ast.And) else any(vals)
+    parts = _tuple_eq_parts(t)
+    if parts is not None:
+        return all(_dup_truth(p_, tv, D, O, P) for p_ in parts) == isinstance(t.ops[0], ast.Eq)
     for a in _atom(t, True):
         if a[0] == "eq":
             for var, c in ((a[1], _cstr(a[2])), (a[2], _cstr(a[1]))):
@@ -780,7 +1060,7 @@ def _dup_truth(t, tv: dict, D: bool, O: bool, P: bool) -> bool:
                     return D == a[3]
                 if c == "module" and tv.get("objtype") and _is_name(var, tv["objtype"]):
                     return O == a[3]
-        if a[0] == "in" and "objects" in unparse(a[2]):
+        if a[0] == "in" and _is_table(a[2]):
             return P == a[3]
     raise Unsupported(f"part of the py:module test not understood: {short(t, 50)}")
 
@@ -852,6 +1132,7 @@ def _store_guard_classes(fi: FunctionInfo, L: "EntryLoop", store, extra=()) -> l
 
 @rule("C18.R2")
 def r2_rule_chain(corpus: Corpus, rep: Report, tier: str):
+    corpus = _view(corpus)
     rep.rule("C18.R2", "v2 loader: ':' test dominates the split, py:module first-wins skip, '$' expansion, '-'/empty -> None, Sphinx's skip conditions only, later duplicate overwrites")
     A = _anchors(corpus)
     L = _myst_loop(corpus)
@@ -889,7 +1170,7 @@ def r2_rule_chain(corpus: Corpus, rep: Report, tier: str):
     for c in conts:
         at = _atoms(cfg, c)
         if any(a[0] == "eq" and a[3] and "py:module" in (_cstr(a[1]), _cstr(a[2])) and (_is_name(a[1], R["type"]) or _is_name(a[2], R["type"])) for a in at):
-            dup.append((c, [a for a in at if a[0] == "in" and "objects" in unparse(a[2])]))
+            dup.append((c, [a for a in at if a[0] == "in" and _is_table(a[2])]))
     pyd = [(t, pol) for cls, t, pol in guards if cls == "PYDUP"]
     if dup:
         for c, member in dup:
@@ -947,6 +1228,18 @@ def r2_rule_chain(corpus: Corpus, rep: Report, tier: str):
                 tested, good, anchor = is_dollar_test(neg), is_expansion(sv.orelse), st  # loc = loc if not loc.endswith("$") else loc[:-1] + name
             elif isinstance(st, ast.Assign) and isinstance(p, ast.If) and st in p.body:
                 tested, good, anchor = is_dollar_test(p.test), is_expansion(sv), p
+            elif isinstance(st, ast.Assign) and isinstance(sv, ast.Call) and mod.resolve(dotted(sv.func) or "") in ("re.sub", "re.subn") and len(sv.args) >= 3 and _is_name(sv.args[2], loc):
+                pat_, repl = _cstr(sv.args[0]), sv.args[1]
+                if isinstance(repl, ast.Lambda) and _is_name(repl.body, name) and pat_ in ("\\$$", "\\$\\Z", "[$]$", "[$]\\Z"):
+                    rep.ok("C18.R2", k, mod.site(st), "trailing '$' replaced by the literal name")
+                elif _mentions(repl, set(R.values())) and not isinstance(repl, ast.Lambda):
+                    rep.violation("C18.R2", k, mod.site(st), f"`{short(sv, 60)}` uses the object name as a regex replacement template: a backslash or group reference in the name (\\1, \\g<..>) is expanded or raises re.error, Sphinx inserts the name literally (`location[:-1] + name`)")
+                else:
+                    raise Unsupported(f"{fi.fq}: '$' expansion through {short(sv, 50)} not understood")
+                continue
+            elif isinstance(st, ast.Assign) and isinstance(sv, ast.Call) and isinstance(sv.func, ast.Attribute) and sv.func.attr == "replace" and _is_name(sv.func.value, loc) and len(sv.args) >= 2 and _cstr(sv.args[0]) == "$" and not (isinstance(p, ast.If) and st in p.body):
+                rep.violation("C18.R2", k, mod.site(st), f"`{short(sv, 60)}` replaces every '$' in the location, Sphinx expands only a trailing one")
+                continue
             else:
                 raise Unsupported(f"{fi.fq}: assignment to the location not understood: {short(st, 60)}")
             if not tested:
@@ -1425,6 +1718,7 @@ def _v1_unpack(fi: FunctionInfo):
 
 @rule("C18.R3")
 def r3_key_kinds(corpus: Corpus, rep: Report, tier: str):
+    corpus = _view(corpus)
     rep.rule("C18.R3", "every key used on objects[DOMAIN][OBJTYPE][NAME] / sphinx[DOMAIN:OBJTYPE][NAME] has the kind of its depth")
     A = _anchors(corpus)
     L = _myst_loop(corpus)
@@ -1536,8 +1830,8 @@ class StmtBuf:
                 self.store = "append"
             elif val is None:
                 pass
-            elif _empty_bytes(val):
-                self.store = "reset"
+            elif _empty_bytes(val) or (isinstance(val, ast.Attribute) and val.attr == "unconsumed_tail"):
+                self.store = "reset"  # b"" or what the decompressor has not processed yet of the consumed buffer
             elif isinstance(val, ast.Subscript) and _is_b(val.value, b) and isinstance(val.slice, ast.Slice) and val.slice.lower is not None and val.slice.upper is None and val.slice.step is None:
                 self.store = ("drop", val.slice.lower)
                 skip.add(val.value)
@@ -1985,9 +2279,97 @@ def _judge_decodes(rep: Report, M: "ReaderModel", funcs: list[FunctionInfo]) -> 
     return n
 
 
+# -- end of input is decided by the eof flag, never by the value of a line --------------------------
+
+
+def _judge_line_loops(rep: Report, M: "ReaderModel", funcs: list[FunctionInfo]) -> int:
+    """``readline()`` returns '' for a blank line as well as at end of stream (the consumed prefix may be
+    empty), so a loop over lines must end on the eof flag; ending on an empty line loses every later entry."""
+    rid = "C18.R4"
+    n = 0
+    eof_attr = M.E.split(".", 1)[1]
+
+    def is_readline(e) -> bool:
+        return isinstance(e, ast.Call) and isinstance(e.func, ast.Attribute) and e.func.attr == "readline" and not e.args
+
+    def mentions_eof(t) -> bool:
+        return any(isinstance(x, ast.Attribute) and x.attr == eof_attr for x in ast.walk(t))
+
+    for fi in funcs:
+        cfg = get_cfg(fi)
+        for c in fi.local_nodes():
+            # iter(reader.readline, sentinel)
+            if isinstance(c, ast.Call) and isinstance(c.func, ast.Name) and c.func.id == "iter" and len(c.args) == 2 and isinstance(c.args[0], ast.Attribute) and c.args[0].attr == "readline":
+                n += 1
+                rep.violation(rid, f"{fi.fq}|line loop ends on an empty line", fi.module.site(c), f"`{short(c, 50)}` stops at the first line equal to {short(c.args[1], 10)}: a blank line in the body ends the iteration and every later entry is silently lost (end of stream is signalled by {M.E}, not by the line's value)")
+        loops = [l for l in fi.local_nodes() if isinstance(l, (ast.While, ast.For))]
+        for loop in loops:
+            inner = {x for st in loop.body for x in ast.walk(st)}
+            reads = [x for x in inner if is_readline(x)] + ([x for x in ast.walk(loop.test) if is_readline(x)] if isinstance(loop, ast.While) else [])
+            if not reads:
+                continue
+            n += 1
+            k = f"{fi.fq}|line loop|{short(loop.test if isinstance(loop, ast.While) else loop.iter, 50)}"
+            lvars = set()
+            for r in reads:
+                p = parent(r)
+                if isinstance(p, ast.Assign) and len(p.targets) == 1 and isinstance(p.targets[0], ast.Name):
+                    lvars.add(p.targets[0].id)
+                elif isinstance(p, ast.NamedExpr) and isinstance(p.target, ast.Name):
+                    lvars.add(p.target.id)
+
+            def empty_fact(t, pol) -> bool:
+                """the fact says: a line read in this loop is empty"""
+                for tt, pp in facts(t, pol):
+                    if ((isinstance(tt, ast.Name) and tt.id in lvars) or (isinstance(tt, ast.NamedExpr) and is_readline(tt.value)) or is_readline(tt)) and not pp:
+                        return True
+                    ec = _eq_const(tt)
+                    if ec is not None and ec[1] == "" and pp and ((isinstance(ec[0], ast.Name) and ec[0].id in lvars) or is_readline(ec[0])):
+                        return True
+                return False
+
+            bad = None
+            if isinstance(loop, ast.While) and empty_fact(loop.test, False) and not mentions_eof(loop.test):
+                bad = loop.test
+            for x in inner:
+                if isinstance(x, (ast.Break, ast.Return)) and cfg.loops.get(x) is not None:
+                    own = [(t, pol) for t, pol in cfg.guards(x) if any(t is y for st in loop.body for y in ast.walk(st))]
+                    if any(empty_fact(t, pol) for t, pol in own) and not any(mentions_eof(t) for t, _ in own):
+                        bad = x
+            if bad is not None:
+                rep.violation(rid, f"{fi.fq}|line loop ends on an empty line", fi.module.site(bad), f"the loop over readline() is left when a line is empty (`{short(bad, 50)}`), but readline() also returns '' for a blank line: a blank line in the body ends the iteration and every later entry is silently lost (end of stream is signalled by {M.E})")
+            else:
+                rep.ok(rid, k, fi.module.site(loop), "an empty line is only skipped; the loop ends on the eof flag / the iterator")
+    return n
+
+
+def _judge_decompress(rep: Report, M: "ReaderModel") -> int:
+    """``d.decompress(data, max_length)`` leaves unprocessed input in ``d.unconsumed_tail``; it must be fed back."""
+    rid = "C18.R4"
+    n = 0
+    for m in M.methods:
+        for c in m.local_nodes():
+            if not (isinstance(c, ast.Call) and isinstance(c.func, ast.Attribute) and c.func.attr == "decompress" and isinstance(c.func.value, ast.Name)):
+                continue
+            n += 1
+            d = c.func.value.id
+            ml = arg_or_kw(c, 1, "max_length")
+            k = f"{m.fq}|{short(c.func, 40)}|input not processed is kept"
+            if ml is None or _const(ml) == 0:
+                rep.ok(rid, k, m.module.site(c), "no max_length: the whole input is processed")
+                continue
+            tails = [x for x in m.local_nodes() if isinstance(x, ast.Attribute) and x.attr == "unconsumed_tail" and _is_name(x.value, d)]
+            if tails:
+                rep.ok(rid, k, m.module.site(c), f"{d}.unconsumed_tail is read again")
+            else:
+                rep.violation(rid, k, m.module.site(c), f"`{short(c, 60)}` limits the output to {short(ml, 20)} bytes; the input that was not processed stays in {d}.unconsumed_tail, which is never read: when a read expands to more than that, the rest of its data is thrown away with the next read (entries lost or a zlib error, depending on how the stream is split into reads)")
+    return n
+
+
 @rule("C18.R4")
 def r4_buffer_conservation(corpus: Corpus, rep: Report, tier: str):
-    rep.rule("C18.R4", "reader buffers: stores are append / consumed-prefix drop / consumed reset; consumed bytes discarded once; no tail left at exit; decode() only at entry/stream boundaries; eof only on b''; every chunk appended")
+    corpus = _view(corpus)
+    rep.rule("C18.R4", "reader buffers: stores are append / consumed-prefix drop / consumed reset; consumed bytes discarded once; no tail left at exit; decode() only at entry/stream boundaries; line loops end on the eof flag; bounded decompress keeps its tail; eof only on b''; every chunk appended or handed on")
     M = _reader(corpus)
     rid = "C18.R4"
     for m in M.methods:
@@ -1999,6 +2381,10 @@ def r4_buffer_conservation(corpus: Corpus, rep: Report, tier: str):
     A = _anchors(corpus)
     if _judge_decodes(rep, M, M.methods + [A.load, A.v1, A.v2]) < 1:
         raise Unsupported(f"{M.ci.fq}: no decode() of the byte stream found")
+    # line loops end on the eof flag; bounded decompression keeps its tail
+    if _judge_line_loops(rep, M, M.methods + [A.load, A.v1, A.v2]) < 1:
+        raise Unsupported(f"{M.ci.fq}: no loop over readline() found")
+    _judge_decompress(rep, M)
     # reads and the eof flag
     n_reads = 0
     for m in M.methods:
@@ -2121,7 +2507,7 @@ def _sym_store(st, env, mod, sentinel, A):
         keys, item, mode = es
         hg = _helper_guards(A.corpus, A.cur_fi, st) if getattr(A, "cur_fi", None) is not None else []
         for g, _pol in list(hg) + [(g_, False) for g_ in env.get("\0guards", ())]:
-            if any(a[0] == "in" and "objects" in unparse(a[2]) for n_ in ast.walk(g) if isinstance(n_, ast.Compare) for a in _atom(n_, True)):
+            if any(a[0] == "in" and _is_table(a[2]) for n_ in ast.walk(g) if isinstance(n_, ast.Compare) for a in _atom(n_, True)):
                 mode = f"{KEEP_FIRST} when `{short(g, 70)}`"
             else:
                 raise Unsupported(f"v1 loop: store guarded by a condition this rule cannot judge: {short(g, 60)}")
@@ -2299,8 +2685,8 @@ def _v2_consts(corpus: Corpus, fi: FunctionInfo, roles: dict, depth: int = 0, ou
             for a in _atom(n, True):
                 if a[0] == "endswith" and _is_name(a[1], roles["loc"]) and _cstr(a[2]) is not None:
                     out["location suffix"].add(_cstr(a[2]))
-            if isinstance(n.ops[0], (ast.Eq, ast.NotEq)):
-                ec = _eq_const(ast.Compare(left=l, ops=[ast.Eq()], comparators=[r]))
+            for cmp_ in (_tuple_eq_parts(n) or ([ast.Compare(left=l, ops=[ast.Eq()], comparators=[r])] if isinstance(n.ops[0], (ast.Eq, ast.NotEq)) else [])):
+                ec = _eq_const(cmp_)
                 if ec is not None and _is_name(ec[0], roles["type"]):
                     out["type equality"].add(ec[1])
                 if ec is not None and "domain" in roles and _is_name(ec[0], roles["domain"]):
@@ -2309,6 +2695,8 @@ def _v2_consts(corpus: Corpus, fi: FunctionInfo, roles: dict, depth: int = 0, ou
                     out["\0o"].add(ec[1])
         if isinstance(n, ast.Call) and isinstance(n.func, ast.Attribute) and n.func.attr in ("endswith", "removesuffix") and _is_name(n.func.value, roles["loc"]) and n.args and _cstr(n.args[0]) is not None:
             out["location suffix"].add(_cstr(n.args[0]))
+        if isinstance(n, ast.Call) and fi.module.resolve(dotted(n.func) or "") in ("re.sub", "re.subn") and len(n.args) >= 3 and _is_name(n.args[2], roles["loc"]) and _cstr(n.args[0]) in ("\\$$", "\\$\\Z", "[$]$", "[$]\\Z"):
+            out["location suffix"].add("$")
         if isinstance(n, ast.Call) and isinstance(n.func, ast.Attribute) and n.func.attr == "split" and _is_name(n.func.value, roles["type"]) and n.args and _cstr(n.args[0]) is not None:
             out["substring tests"].add(_cstr(n.args[0]))  # the separator plays the role of the substring test
     if top:
@@ -2335,6 +2723,7 @@ def _show_set(s) -> str:
 
 @rule("C18.R5")
 def r5_constants(corpus: Corpus, rep: Report, tier: str):
+    corpus = _view(corpus)
     rep.rule("C18.R5", "header strings, [11:] offsets, v1 templates, v2 test constants, line boundaries and the '-' sentinel agree with Sphinx and between from/to_sphinx")
     rid = "C18.R5"
     A = _anchors(corpus)
@@ -2536,6 +2925,9 @@ def mutants(corpus: Corpus):
     add("c18-dollar-expansion-dropped", "C18.R2", dl_if.test if dl_if else None, "False", "$ expansion")
     if dl_if is not None and isinstance(dl_if.body[0], ast.Assign):
         add("c18-dollar-not-stripped", "C18.R2", dl_if.body[0].value, f"{R['loc']} + {R['name']}", "$ expansion")
+        # class "data used as a template / every occurrence replaced"
+        add("c18-dollar-via-re-sub-template", "C18.R2", dl_if, f'{R["loc"]} = re.sub(r"\\$$", {R["name"]}, {R["loc"]})', "replacement template")
+        add("c18-dollar-every-occurrence-replaced", "C18.R2", dl_if, f'{R["loc"]} = {R["loc"]}.replace("$", {R["name"]})', "replaces every")
     tx_if = find_node(v2, lambda n: isinstance(n, ast.If) and len(n.body) == 1 and isinstance(n.body[0], ast.Assign) and _is_none(n.body[0].value) and _is_name(n.body[0].targets[0], R["text"]))
     add("c18-empty-display-name-kept", "C18.R2", tx_if.test if tx_if else None, f"{R['text']} == \"-\"", "display name sentinel")
     store = find_node(v2, lambda n: _objects_store(n) is not None and n in L.body_stmts)
@@ -2624,6 +3016,26 @@ def mutants(corpus: Corpus):
     if rls is not None:
         yf = find_node(rls, lambda n: isinstance(n, ast.YieldFrom) and isinstance(n.value, ast.Call) and isinstance(n.value.func, ast.Attribute) and n.value.func.attr == "splitlines")
         add("c18-v1-lines-cut-at-newline-only-reverted", "C18.R5", yf, f"yield {unparse(yf.value.func.value)}" if yf is not None else "", "v1 entry line boundaries")
+    # class "end of input decided by the value of a line"
+    if rls is not None:
+        wl = find_node(rls, lambda n: isinstance(n, ast.While))
+        M_ = _reader(corpus)
+        if wl is not None:
+            ind_ = " " * wl.col_offset
+            add("c18-readlines-iter-sentinel", "C18.R4", wl, f'for line in iter(self.readline, ""):\n{ind_}    yield from line.splitlines()', "ends on an empty line")
+            add("c18-readlines-break-on-empty-line", "C18.R4", wl, f"while True:\n{ind_}    line = self.readline()\n{ind_}    if not line:\n{ind_}        break\n{ind_}    yield from line.splitlines()", "ends on an empty line")
+            add("c18-readlines-walrus-until-empty", "C18.R4", wl, f"while line := self.readline():\n{ind_}    yield from line.splitlines()", "ends on an empty line")
+        else:
+            out.append(("c18-readlines-iter-sentinel", "readlines has no while loop"))
+    # class "bounded decompression drops the unprocessed input"
+    if rcc is not None:
+        dc = find_node(rcc, lambda n: isinstance(n, ast.Call) and isinstance(n.func, ast.Attribute) and n.func.attr == "decompress" and len(n.args) == 1 and not n.keywords)
+        if dc is not None:
+            a0 = ast.get_source_segment(src, dc.args[0])
+            add("c18-decompress-max-length-tail-dropped", "C18.R4", dc, f"{unparse(dc.func)}({a0}, 16 * _BUFSIZE)", "input not processed")
+            add("c18-decompress-max-length-kw-tail-dropped", "C18.R4", dc, f"{unparse(dc.func)}({a0}, max_length=65536)", "input not processed")
+        else:
+            out.append(("c18-decompress-max-length-tail-dropped", "no plain decompress(data) call"))
     if rl is not None:
         eof_t = find_node(rl, lambda n: isinstance(n, ast.If) and unparse(n.test) == _reader(corpus).E)
         add("c18-readline-decodes-partial-buffer", "C18.R4", eof_t.test if eof_t else None, f"{_reader(corpus).E} or len({_reader(corpus).B}) >= _BUFSIZE", "is not known to be set")
